@@ -808,7 +808,7 @@ class command(FieldType):
         command_type = TYPE_WINDOWS if isinstance(self, windows_command) else TYPE_POSIX
         if self.executable:
             _exec, _ = self.executable._pack()
-            return ((_exec, self.args), command_type)
+            return ((_exec, tuple(self.args)), command_type)
         else:
             return (None, command_type)
 
